@@ -19,6 +19,7 @@ import (
 
 	"github.com/gopcua/opcua"
 	"github.com/gopcua/opcua/monitor"
+	"github.com/gopcua/opcua/server"
 	"github.com/gopcua/opcua/ua"
 
 	"verifharness/g2kit"
@@ -33,6 +34,7 @@ type Case struct {
 	Interval int    `json:"interval"` // publishing interval, ms
 	Mode     string `json:"mode"`     // cb | chan
 	Pause    int    `json:"pause"`    // max pause between writes, microseconds
+	App      int    `json:"app"`      // 1: values change inside the server application (callback-backed nodes, announced with Server.ChangeNotification from concurrent goroutines) instead of client writes
 	Salt     int    `json:"salt"`
 }
 
@@ -72,7 +74,7 @@ func main() {
 			ls := g2kit.Lines[line](out.Stdout)
 			if len(ls) == 1 && ls[0].Err == "" {
 				l := ls[0]
-				class := fmt.Sprintf("nodes%d/%s/int%d/churn%v/notifs%s", c.Nodes, c.Mode, c.Interval, c.Churn > 0, bucket(l.Stats["notify"]))
+				class := fmt.Sprintf("nodes%d/%s/int%d/churn%v/app%d/notifs%s", c.Nodes, c.Mode, c.Interval, c.Churn > 0, c.App, bucket(l.Stats["notify"]))
 				vfgo.Emit(vfgo.Result{Case: c, Status: "ok", Class: class, Nontrivial: l.Stats["notify"] > c.Nodes,
 					Obs: map[string]any{"events": l.Events, "stats": l.Stats}})
 				done = true
@@ -134,7 +136,24 @@ func child() {
 		fmt.Fprintln(os.Stderr, "bad stdin:", err)
 		os.Exit(3)
 	}
-	srv, err := g2kit.Start(c.Nodes)
+	// application mode: node i is backed by a callback that reads cur[i]; the callback doubles as
+	// a scheduler gate (every third call pauses right after it sampled the value)
+	cur := make([]atomic.Int64, c.Nodes)
+	var gate atomic.Int64
+	var valueOf func(i int) any
+	if c.App > 0 {
+		valueOf = func(i int) any {
+			cur[i].Store(int64(i+1) * tagBase)
+			return func() *ua.DataValue {
+				v := cur[i].Load()
+				if x := gate.Add(1); x%3 == 0 {
+					time.Sleep(time.Duration((x*7919)%400) * time.Microsecond)
+				}
+				return server.DataValueFromValue(v)
+			}
+		}
+	}
+	srv, err := g2kit.StartFn(c.Nodes, valueOf)
 	if err != nil {
 		fail(out, c.ID, "start: %v", err)
 		return
@@ -146,6 +165,9 @@ func child() {
 	}
 	// tagged initial values: node i holds i*1e6 + 0
 	for i, n := range srv.Nodes {
+		if c.App > 0 {
+			break
+		}
 		if err := g2kit.WriteInt(wc, n, int64(i+1)*tagBase, opTimeout); err != nil {
 			fail(out, c.ID, "initial write: %v", err)
 			return
@@ -204,7 +226,7 @@ func child() {
 		}
 	}
 
-	var wg sync.WaitGroup
+	var wg, announcers sync.WaitGroup
 	var churnDone atomic.Bool
 	var werr atomic.Value
 	for i, n := range srv.Nodes {
@@ -218,6 +240,17 @@ func child() {
 					time.Sleep(time.Duration(rng.Intn(c.Pause)) * time.Microsecond)
 				}
 				rec.log("wcall", n.StringID(), "", k)
+				if c.App > 0 {
+					// the application changes the value and announces it from a goroutine of its own
+					cur[i].Store(int64(i+1)*tagBase + k)
+					rec.log("wret", n.StringID(), "", k)
+					announcers.Add(1)
+					go func() {
+						defer announcers.Done()
+						srv.S.ChangeNotification(n)
+					}()
+					continue
+				}
 				if err := g2kit.WriteInt(wc, n, int64(i+1)*tagBase+k, opTimeout); err != nil {
 					werr.Store(fmt.Sprintf("write %s #%d: %v", n.StringID(), k, err))
 					return
@@ -251,6 +284,7 @@ func child() {
 		}()
 	}
 	wg.Wait()
+	announcers.Wait()
 	if e := werr.Load(); e != nil {
 		fail(out, c.ID, "%v", e)
 		return
